@@ -44,6 +44,9 @@ def main():
     if args and args[0] == "--round2":
         prefix, tag = "/tmp/seed2_", "r2-"
         args = args[1:]
+    elif args and args[0] == "--round3":
+        prefix, tag = "/tmp/seed3_", "r3-"
+        args = args[1:]
     ids = args or ["C%02d" % i for i in range(1, 21)]
     os.makedirs(SEEDED, exist_ok=True)
     for pid in ids:
